@@ -747,6 +747,15 @@ func c08Tasks(tier string) []mc.Task {
 		sh := sh
 		for _, model := range c08Models {
 			model := model
+			alpha := alpha
+			if sh.n == 3 && sh.L == 3 && (model == "rawdist" || model == "pdist") {
+				// three gap-counting modes make these two models 3x as expensive, and the full 3x3 space
+				// does not complete in the budget: a column of 3 rows holds at most 3 distinct
+				// nucleotides and neither model distinguishes transitions from transversions, so
+				// {A,C,T,-} reaches every column pattern up to renaming (the 5-letter alphabet is
+				// complete for the six smaller shapes)
+				alpha = "ACT-"
+			}
 			var prefixes []string
 			if sh.n*sh.L >= 6 {
 				for i := 0; i < len(alpha); i++ {
@@ -821,7 +830,7 @@ func init() {
 		Level: "model_checking",
 		Rule: "schedule part: stateless DFS over all interleavings of the real dna.DistMatrix goroutines (main, producer, cpus workers; scheduling points at every go/channel/mutex/WaitGroup operation) with iterative preemption bounds 0,1,2 (quick) / 0..3 (thorough), for 3 sequences x cpus 1..3 x {k2p (with a +Inf pair), jc}, 4 sequences with overlapping ranges, 15 sequences (105 pairs > channel capacity); " +
 			"function-entry part: 3 sequences, cpus 2 (3 thorough), 5 models, every function entry of goalign (functions of >= 4 statements) an additional scheduling point, preemption bound 1; "+
-			"fault part: the same exploration with a DistModel that fails at each Distance call / each Sequence call in turn, and with one that fails at every Distance call from the k-th on (k=0,1; cpus 2,3; preemption bound 2/3); relational part: all alignments of shape 2x1,2x2,3x1,2x3,3x2 (+2x4,3x3 thorough) over {A,C,G,T,-} x 7 models x rm-gaps x gap-count modes under every column permutation, replication (concat, weights) k=2,3, unit weights, reverse complement, every row permutation, cpus 1,2,3. " +
+			"fault part: the same exploration with a DistModel that fails at each Distance call / each Sequence call in turn, and with one that fails at every Distance call from the k-th on (k=0,1; cpus 2,3; preemption bound 2/3); relational part: all alignments of shape 2x1,2x2,3x1,2x3,3x2 (+2x4,3x3 thorough; 3x3 over {A,C,T,-} for pdist and rawdist) over {A,C,G,T,-} x 7 models x rm-gaps x gap-count modes under every column permutation, replication (concat, weights) k=2,3, unit weights, reverse complement, every row permutation, cpus 1,2,3. " +
 			"distinct_nontrivial counts distinct (case, schedule) executions of the schedule/fault parts plus relational cases whose matrix has a non-zero entry. states/transitions are nodes/edges of the schedule choice trees.",
 		Assumptions: []string{
 			"sequential consistency (Go programs without data races are SC; races are what the vector-clock check reports)",
